@@ -401,9 +401,27 @@ func genC16(tier string, rng *Rng) {
 		if n%3 == 0 {
 			W = rng.Pick([]int{1, 7, 8, 9, 16, 17, 33})
 		}
+		// the LAST thing drawn on the old canvas and the FIRST thing drawn on the new one lie on the same
+		// row (seed C16-9: a row offset remembered across re-initialisation points into the old stride)
+		row := rng.Range(0, maxInt(1, minInt(H0, H))-1)
+		func() {
+			defer func() { recover() }()
+			used.SetBoundingBox(0, 0, W0, H0)
+			used.InvertPixels(false)
+			if n%2 == 0 {
+				used.DrawPixel(rng.Range(0, maxInt(1, W0)-1), row, true)
+			} else {
+				used.DrawFastHLine(0, row, W0, true)
+			}
+		}()
 		used.NewImage(W, H)
-		ops := []mop{opInv(rng.Intn(4) == 0), opCur(rng.Range(0, 5), rng.Range(0, 3)), opTcol(rng.Bool()), opSpc(rng.Range(0, 3))}
-		ops = append(ops, opFR(0, 0, W, H, rng.Bool()), opHL(-1, rng.Range(0, H), W+9, rng.Bool()), opPixel(W-1, H-1, true), opPixel(W, 0, true))
+		ops := []mop{opInv(false), opCur(rng.Range(0, 5), rng.Range(0, 3)), opTcol(rng.Bool()), opSpc(rng.Range(0, 3))}
+		if n%2 == 0 {
+			ops = append(ops, opPixel(rng.Range(0, maxInt(1, W)-1), row, true), opHL(-2, row, W+5, true))
+		} else {
+			ops = append(ops, opHL(rng.Range(-3, 2), row, W, true), opVL(rng.Range(0, maxInt(1, W)-1), row, 3, true))
+		}
+		ops = append(ops, opInv(rng.Intn(4) == 0), opFR(0, 0, W, H, rng.Bool()), opHL(-1, rng.Range(0, H), W+9, rng.Bool()), opPixel(W-1, H-1, true), opPixel(W, 0, true))
 		for k := rng.Range(2, 10); k > 0; k-- {
 			ops = append(ops, randOp(rng, W, H))
 		}
@@ -471,7 +489,11 @@ func randOp(rng *Rng, W, H int) mop {
 		return opFCH(x, y, rng.Range(-2, 30), rng.Intn(4), rng.Range(-20, 40), c)
 	case 9:
 		w, h := rng.Range(0, 30), rng.Range(0, 20)
-		return opBM(x, y, rng.Bytes(rng.Intn((w+7)/8*h+2)), w, h, c, rng.Bool(), rng.Bool())
+		n := rng.Intn((w+7)/8*h + 2)
+		if rng.Intn(3) == 0 { // far fewer bytes than declared (several whole rows missing), or far more
+			n = rng.Pick([]int{0, 1, (w + 7) / 8, (w+7)/8*h/2, (w+7)/8*h + 40})
+		}
+		return opBM(x, y, rng.Bytes(n), w, h, c, rng.Bool(), rng.Bool())
 	case 10:
 		return opChr(x, y, byte(rng.Intn(256)), c, rng.Bool(), rng.Range(0, 4), rng.Range(0, 4))
 	case 11:
